@@ -213,6 +213,36 @@ CHEADER = ('From Coq Require Import List ZArith Bool.\nImport ListNotations.\n'
            'From SDC Require Import Mdib.Model Mdib.Run Mdib.Consumer Mdib.CRun.\nOpen Scope Z_scope.\n')
 
 
+DHEADER = ('From Coq Require Import List ZArith Bool.\nImport ListNotations.\n'
+           'From SDC Require Import Mdib.Model Mdib.Run Mdib.Consumer Mdib.CRun Mdib.DRun.\nOpen Scope Z_scope.\n')
+
+
+def report_correspondence(ctx, stream, pairs, mdib_files):
+    """the reports the provider MODEL predicts for every step of a history (coq/Mdib/DRun.v `dreports`: the Coq
+    functions `descr_reports` / `state_report` that the C01 mirror theorems are stated about) vs the reports seen on the
+    wire; insensitive only to the orders the wire does not fix (items of one list, DELETE parts of one removed tree)"""
+    tr = mdibmodel.ConsumerTranslator({f: inventory(ctx, f) for f in mdib_files})
+    cases = []
+    for c, r in pairs:
+        name, _u, h, _e = tr.case(c, r)
+        _cname, _cu, steps, _cexp = tr.consumer_case(c, r)
+        inst = r['init']['prov'].get('inst') or 0
+        cases.append((f'({name}, {inst}, {h})', steps))
+    header = DHEADER + '\n'.join(tr.init_defs.values())
+    run = "fun c => let '(m, inst, h) := c in dreports 1 inst m h"
+    mism, err = ctx.coq_mism(stream + '-predicted-reports', header, 'dtrace_eqb', run, cases, shard=8, deps=['Mdib/DRun.vo'])
+    if err:
+        ctx.broken('correspondence', f'{stream} predicted reports (coq evaluation)', err[-1500:])
+    if mism:
+        i = mism[0]
+        c, r = pairs[i]
+        steps_bad = ctx.coq_eval(header, f"dmism (({run}) {cases[i][0]}) {cases[i][1]}")
+        ctx.broken('correspondence', f'{stream}: reports predicted by the provider model vs reports on the wire',
+                   {'disagreements': len(mism), 'first_case': c, 'steps_that_differ': re.sub(r'\s+', ' ', steps_bad)[-300:],
+                    'wire': cases[i][1][:2500]})
+    return mism
+
+
 def consumer_correspondence(ctx, stream, pairs, mdib_files, delivered=None):
     """consumer model (coq/Mdib/Consumer.v) fed with the reports seen on the wire vs the real ConsumerMdib"""
     tr = mdibmodel.ConsumerTranslator({f: inventory(ctx, f) for f in mdib_files})
